@@ -199,6 +199,21 @@ check("C16",
       "TLA+ design model over all dual spanning trees (C16_MC, C16_Cutting) checked with TLC; TLC trace validation of the real cutter's trees and output (C16_Trace)",
       "DESIGN.md 6.16")
 
+check("C14",
+      "TLC checks that the table of promised counts / topology (C14_Procedural) agrees with reference index arithmetic for grids, tori "
+      "and cylinders for every resolution pair 3..5 x 3..5 and both switches (valid oriented manifold, Euler characteristic, border loops). "
+      "Every generator (tetrahedron, hexahedron, cube, hexahedron_4pts, octahedron, icosahedron, dodecahedron, cylinder, torus, sphere_uv, "
+      "icosphere, sphere_fibonacci, triangle, quad, unit_grid, unit_triangle, ring, flat_ring, dual_mesh, spherify_vertices, cylindrify_edges, "
+      "chain_of_vertices, vector_field) runs over a parameter grid with unequal and minimal resolutions, radii 1/2, 1, 3, centres off the origin "
+      "and all switches; TLC judges each output with MeshCore: indices in range, no unused vertex, no repeated face, consistently oriented "
+      "manifold, counts, arity, components / Euler characteristic / border loops of the named shape, class and cell for the volume switch, "
+      "colour attribute, requested corners (exact), unit square, and one exact rational measure per vertex for the named surface (squared "
+      "distance to centre / axis / torus circle).",
+      "Not decided: the apex angle defect of ring() (bisection on atan2). icosahedron-like shapes only equidistant from the centre. "
+      "cylindrify_edges on unit-length polylines; unit_triangle with equal resolutions; face lists of volume outputs are not judged as surfaces.",
+      "TLA+ promise table + reference index arithmetic (C14_Procedural, C14_MC) checked with TLC; TLC trace validation of every generator output with MeshCore (C14_Trace)",
+      "DESIGN.md 6.14")
+
 ALL = ["C%02d" % i for i in range(1, 21)]
 
 
